@@ -353,6 +353,50 @@ fn random_elem<F: Elem>(rng: &mut Rng, alpha: &[BigUint]) -> F {
     F::from_coords(&coords)
 }
 
+/// Exhaustive unary program for small prime fields that are too large for the quadratic
+/// root search of the TLC toy model: every x in F_p is loaded and sent through sqrt, legendre,
+/// inverse, square ...; TLC validates each event (the root through the relation y^2 = x).
+pub fn record_exhaustive_unary<F: Elem>(cfg: &str, out: &mut dyn std::io::Write) -> Report {
+    use num_traits::ToPrimitive;
+    let mut rep = Report::default();
+    let p = F::modulus().to_u64().expect("small prime field");
+    assert!(F::shape().is_empty());
+    let hdr = json!({"op": "reset", "cfg": cfg, "p": num_to_json(&F::modulus(), true), "nlimbs": F::nlimbs(),
+                     "lv": F::levels(true), "nreg": 1, "program": "exhaustive-unary"});
+    writeln!(out, "{}", hdr).unwrap();
+    let ops = ["sqrt", "legendre", "inv", "sqr", "neg", "dbl", "is_zero", "is_one", "into_bigint"];
+    let mut vi = 0usize;
+    for x in 0..p {
+        let xe = F::from_coords(&[BigUint::from(x)]);
+        for op in ops {
+            let mut regs = vec![xe];
+            let mut ev = json!({"op": "load", "d": 1, "w": [[1, xe.raw_json()]]});
+            writeln!(out, "{}", ev).unwrap();
+            ev = json!({"op": op, "d": 1, "s": 1});
+            intent(&json!({"machine": "field", "cfg": cfg, "x": x, "event": ev}));
+            let evc = ev.clone();
+            let vs = variants::<F>(&evc, true);
+            vi += 1;
+            let (name, f) = &vs[vi % vs.len()];
+            ev["via"] = json!(name);
+            rep.evaluations += 1;
+            rep.op(op);
+            match guarded(|| f(&mut regs)) {
+                Ok(r) => { if !r.is_null() { ev["ret"] = r; } }
+                Err(e) => { ev["panic"] = json!(e); regs = vec![xe]; }
+            }
+            let query = ["legendre", "is_zero", "is_one", "into_bigint"].contains(&op);
+            let none = ev.get("ret") == Some(&json!("none"));
+            ev["w"] = if query || (none && regs[0] == xe) { json!([]) } else { json!([[1, regs[0].raw_json()]]) };
+            if regs[0] != xe && !regs[0].is_zero() && !regs[0].is_one() { rep.nontrivial.insert(format!("{op}:{x}")); }
+            if x % 997 == 5 { rep.sample(&ev); }
+            writeln!(out, "{}", ev).unwrap();
+        }
+    }
+    rep.transitions = rep.evaluations;
+    rep
+}
+
 pub fn record<F: Elem>(cfg: &str, seed: u64, n: usize, out: &mut dyn std::io::Write) -> Report {
     let mut rep = Report::default();
     let mut rng = Rng(seed ^ 0xF1E1D);
